@@ -8,7 +8,7 @@ use std::time::Duration;
 use vp_common::refcodec::Pkt;
 use vp_common::report::par_map;
 use vp_common::{Cli, Report, Rng, Tier};
-use vp_sim::client::{Act, CookieAnswer, EncVariant, Out};
+use vp_sim::client::{Act, CookieAnswer, Echo, EncVariant, Out};
 use vp_sim::recadapters::{Call, Outcome};
 
 /// The grammar of the statement as an acceptor over clientbound packet names (prefix closed).
@@ -238,6 +238,28 @@ fn generate(cli: &Cli) -> Vec<Case> {
                     };
                     sc.client.script.insert(step, Act::Sleep(Duration::from_secs(secs)));
                     out.push(Case { sc, class: format!("{bname}/slow-before-{what}/{secs}s"), kind: Kind::Baseline, intent: Some(b.intent), status_expected, ping, honest_enc_response: b.intent != Intent::Status });
+                }
+            }
+        }
+        // a client that neither echoes nor reads: the timeout Disconnect is half written when routing
+        // completes without a target - one Disconnect, and nothing after it
+        if b.intent != Intent::Status {
+            let build = |rng: &mut Rng| {
+                let (mut sc, status_expected, ping) = base_scenario(rng, b);
+                sc.client.echo = Echo::Never;
+                sc.adapters.discovery = Outcome::Ok(vec![]);
+                // Client Information is sent 5 s into the connection, the timeout falls due at 32 s
+                sc.adapters.discovery_latency = Duration::from_secs(28);
+                (sc, status_expected, ping)
+            };
+            let (probe_sc, _, _) = build(&mut rng.clone());
+            let probe = run(&probe_sc);
+            let off: usize = probe.client.received.iter().take_while(|r| !matches!(r.pkt, Ok(Pkt::ConfDisconnect { .. }))).map(|r| r.frame_len).sum();
+            if probe.client.first("ConfDisconnect").is_some() {
+                for k in [1usize, 4, 9, 20] {
+                    let (mut sc, status_expected, ping) = build(&mut rng.clone());
+                    sc.write_plan = vp_sim::simnet::WritePlan { steps: vec![], stalls: vec![(off + k, Duration::from_secs(2))] };
+                    out.push(Case { sc, class: format!("{bname}/timeout-disconnect-half-written@{k}/routing-ends-without-target"), kind: Kind::ConfigWord, intent: Some(b.intent), status_expected, ping, honest_enc_response: true });
                 }
             }
         }
